@@ -278,12 +278,21 @@ fn check_state(w: &Window<L>, m: &VecDeque<L>, full: bool, rng: &mut Rng, r: &mu
 						let st = 1 + rng.below(4) as usize;
 						let stepped: Vec<L> = adv().step_by(st).copied().collect();
 						let hint = adv().size_hint();
+						// distances beyond the PeriodType's range (an O(1) nth that narrows its argument wraps modulo 2^bits)
+						let far: Vec<usize> = vec![255, 256, 257, 256 + rest.len() / 2, 511, 512, 65535, 65536, 65536 + 1, usize::MAX];
+						let far_ok = far.iter().all(|&d| {
+							let want = rest.get(d).copied();
+							let mut it = adv();
+							let got = it.nth(d).copied();
+							let after = it.next().copied();
+							got == want && after == d.checked_add(1).and_then(|e| rest.get(e).copied()) && adv().skip(d).next().copied() == want
+						});
 						let all_pos = adv().position(|_| false);
 						let found = adv().copied().find(|x| Some(*x) == rest.last().copied());
-						(folded, each, cnt, mx, mn, sum, j, skipped, st, stepped, hint, all_pos, found)
+						(folded, each, cnt, mx, mn, sum, j, skipped, st, stepped, hint, all_pos, found, far_ok)
 					});
 					match res {
-						Ok((folded, each, cnt, mx, mn, sum, j, skipped, st, stepped, hint, all_pos, found)) => {
+						Ok((folded, each, cnt, mx, mn, sum, j, skipped, st, stepped, hint, all_pos, found, far_ok)) => {
 							let want_sum = rest.iter().fold(0u64, |a, x| a.wrapping_add(*x));
 							let bad = if folded != rest {
 								Some("fold")
@@ -303,6 +312,8 @@ fn check_state(w: &Window<L>, m: &VecDeque<L>, full: bool, rng: &mut Rng, r: &mu
 								Some("size_hint")
 							} else if all_pos.is_some() || found != rest.last().copied() {
 								Some("position/find")
+							} else if !far_ok {
+								Some("nth/skip-beyond-PeriodType-range")
 							} else {
 								None
 							};
